@@ -4,11 +4,15 @@ Proofs: coq/theories/Proofs/SupportA.v, SupportB.v (+ MeshClimb.v), statements i
 (model: Model/Support.v, sets: Spec/Shapes.v).
 Tie to the code: every case runs the implementation (JIT on, worker process) and the Coq
 model (binary64 instance, vm_compute inside coqc) on the same inputs; support VALUES s.d are
-compared at 1e-9*L, support POINTS where the maximiser is unique with a clear margin.
-Property oracle (independent of the model): exact rational arithmetic (fractions.Fraction)
-with integer-square-root bounds of the closed-form support value of c + M.K under the exact
-float pose; membership by exact local coordinates.  For polytopes the oracle is the exact
-maximum over the vertices.
+compared at 1e-9*L, support POINTS where the maximiser is unique with a clear margin and -
+whatever the ties - in the exactly representable cases (signed-permutation pose, lattice sizes,
+power-of-two direction components), where also the mesh vertex index must be identical.
+Per-input verdict: (gate) an exact rational oracle (fractions.Fraction, integer-square-root
+bounds of the closed-form support value of c + M.K under the exact float pose; membership by
+exact local coordinates; for polytopes the exact maximum over the vertices), doubled by the
+Coq-proven checker `support_cert` of Checker/ShapesCert.v evaluated by vm_compute on the exact
+rationals of the implementation's answer: an accepted certificate makes the verdict for that
+input a consequence of `support_cert_sound`.
 """
 import json
 import math
@@ -19,9 +23,23 @@ from .shapes_common import Fr
 
 PID = "C03"
 PROOF_FILES = ["theories/Props/C03.v", "theories/Proofs/SupportA.v", "theories/Proofs/SupportB.v",
-               "theories/Proofs/MeshClimb.v", "theories/Spec/Shapes.v", "theories/Base/RVec2.v"]
+               "theories/Proofs/MeshClimb.v", "theories/Spec/Shapes.v", "theories/Base/RVec2.v",
+               "theories/Checker/ShapesCert.v"]
 FUEL = 100000
-DIR_CLASSES = ["random", "random", "axis", "sign", "sign", "shape_axis", "shape_orth"]
+DIR_CLASSES = ["random", "random", "axis", "sign", "sign", "pow2", "pow2", "shape_axis", "shape_orth"]
+EPS10 = Fr(10) / Fr(2 ** 52)
+
+TRACE_SCOPE = {
+    "geometry.py": ["support_function_cylinder", "support_function_capsule", "support_function_ellipsoid",
+                    "support_function_box", "support_function_sphere", "support_function_disk",
+                    "support_function_ellipse", "support_function_cone", "convert_box_to_vertices"],
+    "utils.py": ["norm_vector", "plane_basis_from_normal", "transform_point"],
+    "mesh.py": ["MeshHillClimbingSupportFunction.__init__", "MeshHillClimbingSupportFunction.__call__",
+                "hill_climb_mesh_extreme"],
+    "colliders.py": [f"{c}.{m}" for c in ("ConvexHullVertices", "MeshGraph", "Sphere", "Capsule", "Ellipsoid",
+                                           "Cylinder", "Disk", "Ellipse", "Cone", "Margin")
+                     for m in ("first_vertex", "support_function", "center")] + ["Box.center", "Box.__init__"],
+}
 
 
 # ---------------------------------------------------------------- generation
@@ -52,9 +70,46 @@ def subdivided_cube(s):
     return vs, tris
 
 
+def sphere_like_mesh(rng, n):
+    """n points on an ellipsoid surface: every point is a hull vertex, graph diameter ~ sqrt(n)"""
+    a = [10 ** rng.uniform(-1, 1) for _ in range(3)]
+    vs = []
+    while len(vs) < n:
+        v = [rng.gauss(0, 1) for _ in range(3)]
+        nv = sc.normf(v)
+        if nv > 1e-3:
+            vs.append([a[i] * v[i] / nv for i in range(3)])
+    return vs
+
+
+def feature_dirs(sh):
+    """directions every case is asked about: along / against / across the shape's own axes (the
+    s == 0, norm == 0, sign(0) arms are reachable only with exactly aligned directions), the
+    coordinate axes and one power-of-two direction with two zero components"""
+    k = sh["kind"]
+    out = []
+    axes = sc.shape_axes(sh)
+    if "R" in sh:
+        x, z = axes[0], axes[2]
+        out += [("shape_z+", list(z)), ("shape_z-", [-a for a in z]), ("shape_x", list(x)),
+                ("shape_xz", [a + b for a, b in zip(x, z)]), ("shape_x-z", [a - 2.0 * b for a, b in zip(x, z)])]
+    elif k == "disk":
+        n = sh["n"]
+        out += [("normal+", list(n)), ("normal-", [-a for a in n])]
+    elif k == "ellipse":
+        a0, a1 = sh["a0"], sh["a1"]
+        cr = [a0[1] * a1[2] - a0[2] * a1[1], a0[2] * a1[0] - a0[0] * a1[2], a0[0] * a1[1] - a0[1] * a1[0]]
+        out += [("axis0", list(a0)), ("axis1-", [-a for a in a1]), ("normal", cr)]
+    out += [("axis_z", [0.0, 0.0, 1.0]), ("axis_-y", [0.0, -2.0, 0.0]), ("pow2_xy", [1.0, -1.0, 0.0])]
+    return [(c, [float(x) + 0.0 for x in d]) for c, d in out if any(x != 0.0 for x in d)]
+
+
 def gen_case(rng, kind, stream):
     sh = sc.gen_shape(rng, kind, stream)
-    if kind == "mesh" and stream == "lattice" and rng.random() < 0.4:
+    if kind == "mesh" and stream == "random" and rng.random() < 0.3:
+        sh["vs"] = sphere_like_mesh(rng, rng.choice([40, 80, 150]))
+        sh["sphere_like"] = True
+    if kind == "mesh" and stream in ("lattice", "exact") and rng.random() < 0.4:
         vs, tris = subdivided_cube(rng.choice(sc.LATTICE))
         order = list(range(len(vs)))
         rng.shuffle(order)                      # vertex numbering must not matter
@@ -64,12 +119,19 @@ def gen_case(rng, kind, stream):
         sh["subdivided"] = True
     margin = None
     if rng.random() < 0.3:
-        margin = rng.choice(sc.LATTICE) if stream == "lattice" else 10 ** rng.uniform(-2, 1)
-    nd = rng.randint(1, 30) if kind == "mesh" else rng.randint(4, 9)
+        margin = rng.choice(sc.LATTICE) if stream in ("lattice", "exact") else 10 ** rng.uniform(-2, 1)
+    nd = rng.randint(1, 22) if kind == "mesh" else rng.randint(3, 6)
     dirs = []
+    classes = DIR_CLASSES + (["cone_switch"] * 3 if kind == "cone" else [])
     for _ in range(nd):
-        cls = rng.choice(DIR_CLASSES)
+        cls = rng.choice(classes)
         dirs.append(dict(cls=cls, d=sc.gen_direction(rng, sh, cls)))
+    feats = [dict(cls=c, d=d) for c, d in feature_dirs(sh)]
+    if kind == "mesh":
+        rng.shuffle(feats)
+        dirs = dirs[:1] + feats + dirs[1:]         # the cached start vertex is the previous answer
+    else:
+        dirs = feats + dirs
     if kind == "mesh" and len(dirs) >= 3 and rng.random() < 0.5:
         # repeated and opposite queries exercise the cached start vertex
         dirs[1] = dict(cls="repeat", d=list(dirs[0]["d"]))
@@ -78,11 +140,11 @@ def gen_case(rng, kind, stream):
 
 
 def gen_cases(rng, tier):
-    per = 10 if tier == "quick" else 90
+    per = 8 if tier == "quick" else 80
     cases = []
     for kind in sc.KINDS:
-        for stream in ("random", "lattice"):
-            n = per * (2 if kind == "mesh" else 1)
+        for stream, share in (("random", 1.0), ("lattice", 0.75), ("exact", 0.75)):
+            n = int(per * share * (2 if kind == "mesh" else 1))
             for _ in range(n):
                 cases.append(gen_case(rng, kind, stream))
     rng.shuffle(cases)
@@ -252,6 +314,70 @@ def judge_case(case, r):
     return fails
 
 
+# ---------------------------------------------------------------- Coq-proven certificates
+def cert_jobs(case, r):
+    """[(label, Coq boolean expression)] for every answer of the case: support_cert for the queries,
+    in_shape_tol for first_vertex() / center() (of the wrapped shape: Margin forwards them)."""
+    sh = case["shape"]
+    if "sup" not in r:
+        return []
+    m = case["margin"]
+    L = sc.shape_L(sh, m or 0.0)
+    tau = Fr(1e-9) * Fr(L)
+    spec = sc.to_spec(sh, m)
+    bare = sc.to_spec(sh, None)
+    jobs = []
+    groups = [("sup", r["sup"], spec)]
+    if sh["kind"] == "mesh":
+        groups.append(("fresh", r["fresh"], spec))
+    if sh["kind"] == "box":
+        groups.append(("free_box", r["free_box"], bare))
+    for name, answers, sp in groups:
+        for i, (d, s) in enumerate(zip(case["dirs"], answers)):
+            if sc.finite(s) and len(s) == 3:
+                jobs.append(((name, i), sc.support_cert_expr(sp, s, d, tau)))
+    for name in ("first_vertex", "center"):
+        p = r[name]
+        if sc.finite(p) and len(p) == 3:
+            jobs.append(((name, 0), sc.member_tol_expr(bare, p, tau)))
+    return jobs
+
+
+# ---------------------------------------------------------------- the hypothesis of the mesh theorem, per input
+def local_max_global_delta(sh, r, d):
+    """smallest delta for which LocalMaxGlobal (Proofs/MeshClimb.v) holds for this mesh, adjacency and
+    direction, computed exactly: max over the vertices without a neighbour better by more than 10*eps
+    of (global maximum - own projection), in units of x.d"""
+    M = sc.Fm(sh["R"])
+    dm = sc.qmattvec(M, sc.Fv(d))
+    vs = [sc.Fv(v) for v in sh["vs"]]
+    proj = [sc.qdot(dm, v) for v in vs]
+    conn = {int(k): [int(x) for x in v] for k, v in r["connections"]}
+    best = max(proj[i] for i in conn)            # vertices that occur in the adjacency
+    best_all = max(proj)
+    delta = Fr(0)
+    for i, nb in conn.items():
+        if all(proj[j] - proj[i] <= EPS10 for j in nb):
+            delta = max(delta, best_all - proj[i])
+    return delta, best_all - best
+
+
+def exact_query(sh, margin, d):
+    """model and implementation evaluate this query without any rounding that depends on the order of
+    operations: the answers must agree whatever the ties"""
+    if not (sc.exact_pose(sh) and sc.exact_direction(d)):
+        return False
+    k = sh["kind"]
+    nums = []
+    if k in ("hull", "mesh"):
+        nums = [x for v in sh["vs"] for x in v]
+    elif k == "box":
+        nums = list(sh["size"])
+    if k not in ("hull", "mesh", "box"):
+        return False                    # smooth kinds: the 1e-9*L comparison is already complete
+    return all(sc.is_lattice_number(x, 16.0) for x in nums) and (margin is None)
+
+
 # ---------------------------------------------------------------- comparison model vs implementation
 def close(a, b, tol):
     return len(a) == len(b) and all(abs(x - y) <= tol for x, y in zip(a, b))
@@ -266,7 +392,7 @@ def add_margin(p, d, m):
     return [p[i] + m * (d[i] / n) for i in range(3)]
 
 
-def compare_case(case, r, m):
+def compare_case(case, r, m, stats):
     diffs = []
     sh = case["shape"]
     L = sc.shape_L(sh, case["margin"] or 0.0)
@@ -298,12 +424,18 @@ def compare_case(case, r, m):
                 diffs.append(f"{name}[{i}]: finiteness differs: model {mp[i]} implementation {ip[i]}")
                 continue
             vm, vi = sc.dotf(mp[i], d), sc.dotf(ip[i], d)
+            exact = name != "support_function_box" and exact_query(sh, case["margin"], d)
+            stats["exact_queries"] = stats.get("exact_queries", 0) + (1 if exact else 0)
             if abs(vm - vi) > tol:
                 diffs.append(f"{name}[{i}]: support value model {vm!r} vs implementation {vi!r} (d={d})")
             elif name != "support_function_box" and unique_margin(sh, d) and not close(mp[i], ip[i], tol):
                 diffs.append(f"{name}[{i}]: unique maximiser but points differ: model {mp[i]} implementation {ip[i]} (d={d})")
             elif midx is not None and unique_margin(sh, d) and midx[i] != iidx[i]:
                 diffs.append(f"{name}[{i}]: vertex index model {midx[i]} vs implementation {iidx[i]}")
+            elif exact and mp[i] != ip[i]:
+                diffs.append(f"{name}[{i}]: exactly representable query (ties decided by index order) but points differ: model {mp[i]} implementation {ip[i]} (d={d})")
+            elif exact and midx is not None and midx[i] != iidx[i]:
+                diffs.append(f"{name}[{i}]: exactly representable query but vertex index differs: model {midx[i]} vs implementation {iidx[i]} (d={d})")
     if not close(fv, r["first_vertex"], tol):
         diffs.append(f"first_vertex: model {fv} vs implementation {r['first_vertex']}")
     if not close(ce, r["center"], tol):
@@ -312,16 +444,22 @@ def compare_case(case, r, m):
 
 
 # ---------------------------------------------------------------- running
-def run_impl_cases(cases, tag):
+def run_impl_cases(cases, tag, hits=None):
     nw = min(cm.NCPU, max(1, len(cases) // 25))
     chunks = [cases[i::nw] for i in range(nw)]
     res = cm.run_impl_parallel(PID, "c03", [dict(cases=c) for c in chunks], timeout=900, tag=tag)
     out = [None] * len(cases)
     consts = None
+
+    def merge(result):
+        if hits is not None:
+            for f, lines in (result.get("line_hits") or {}).items():
+                hits.setdefault(f, set()).update(lines)
     for w, (rr, ch) in enumerate(zip(res, chunks)):
         idxs = list(range(w, len(cases), nw))
         if rr["status"] == "ok":
             consts = consts or rr["result"].get("consts")
+            merge(rr["result"])
             for i, x in zip(idxs, rr["result"]["results"]):
                 out[i] = x
         else:
@@ -330,9 +468,19 @@ def run_impl_cases(cases, tag):
                 if s["status"] == "ok":
                     out[i] = s["result"]["results"][0]
                     consts = consts or s["result"].get("consts")
+                    merge(s["result"])
                 else:
                     out[i] = dict(exc=f"PROCESS-{s['status'].upper()}", exc_msg=f"rc={s.get('rc')} {s.get('log', '')[-300:]}")
     return out, consts
+
+
+def line_coverage(hits, scope):
+    """hits: {basename: set(lines)} from the workers; -> summary per function of /repo's source"""
+    from ..impl import shapes_trace as st
+    import os
+    base = cm.REPO / "distance3d"
+    by_path = {os.path.realpath(str(base / f)): sorted(v) for f, v in hits.items()}
+    return st.summarize(by_path, {str(base / f): names for f, names in scope.items()})
 
 
 EXPECTED_CONSTS = dict(
@@ -342,19 +490,26 @@ EXPECTED_CONSTS = dict(
 
 def run(tier, seed, replay=None):
     R = cm.Run(PID, "proof", tier, seed)
-    R.cov["rule"] = ("case = one collider object (10 kinds x streams random general position / lattice poses "
-                     "[24 axis permutations x optional exact 45-degree factor, sizes and offsets from {1/4,1/2,1,2,4}], "
-                     "30% wrapped in Margin) + 4-9 directions (MeshGraph: 1-30 queries on ONE object, each repeated on a "
-                     "fresh object) from classes random / axis-aligned / sign-boundary (components in "
-                     "{0,+-1,+-1e-300,+-1e-9}) / parallel to a shape axis / orthogonal to or mixing shape axes; "
-                     "distinct_nontrivial counts distinct (case hash, direction index) pairs whose direction is non-zero, "
-                     "whose answer passed the oracle and for which the shape has non-zero extent along d")
+    R.cov["rule"] = ("case = one collider object (10 kinds x streams: random general position / lattice poses "
+                     "[24 axis permutations x optional exact 45-degree factor, sizes and offsets from {1/4,1/2,1,2,4}] / "
+                     "exact [axis permutations only: every operation of model and code is exact]; 30% wrapped in Margin; "
+                     "meshes from make_convex_mesh over random clouds, points on an ellipsoid (40-150 vertices: long climbs), "
+                     "lattice clouds, and cubes with face centres = vertices interior to faces) + the feature directions "
+                     "of the shape (along / against / across its own axes, coordinate axes) + 3-6 directions (MeshGraph: "
+                     "up to 30 queries on ONE object, each repeated on a fresh object) from classes random / axis-aligned / "
+                     "sign-boundary (components in {0,+-1,+-1e-300,+-1e-9}) / powers of two incl. 2^-50, 2^-48 (straddling the "
+                     "10*eps threshold of the hill climb) / parallel to a shape axis / orthogonal to or mixing shape axes / "
+                     "cone: around the rim-apex switch line; distinct_nontrivial counts distinct (case hash, direction index) "
+                     "pairs whose direction is non-zero, whose answer passed the oracle and for which the shape has non-zero "
+                     "extent along d")
     R.assumptions += [
-        "theorems are about the Gallina model Model/Support.v instantiated at exact real arithmetic; the tie to /repo is the correspondence check run here (binary64 instance of the same model vs implementation, 1e-9*L)",
-        "the property oracle of this check is an independent exact Python oracle (fractions.Fraction, integer-square-root bounds at 2^-160), NOT a Coq-extracted checker: closed-form support values of c + M.K under the exact float pose; for box / hull / mesh the exact maximum over the vertices",
-        "membership 'within 1e-9*L of the set' is tested in exact local coordinates M^-1 (p - c); for the cone the tolerance is scaled by (1 + r/h), for ellipsoid / ellipse by the gauge (tau / smallest radius)",
+        "theorems are about the Gallina model Model/Support.v instantiated at exact real arithmetic; the tie to /repo is the correspondence check run here (binary64 instance of the same model vs implementation, 1e-9*L; exact equality of points and vertex indices in the exactly representable cases)",
+        "per-input verdict: the gate is an independent exact Python oracle (fractions.Fraction, integer-square-root bounds at 2^-160): closed-form support values of c + M.K under the exact float pose; for box / hull / mesh the exact maximum over the vertices; every judged answer is ALSO submitted to the Coq-proven checker support_cert / in_shape_tol (Checker/ShapesCert.v, Checker/Shapes.v) by vm_compute; coverage.certificates says how many verdicts are thereby consequences of support_cert_sound (the witnesses are untrusted floating-point hints; a rejected certificate with an accepting oracle is counted as inconclusive, never as a failure)",
+        "certificates speak about the shape expression of harness/narrow.py: c + sum of segments / ellipsoidal discs whose axis vectors are the binary64 products size*column (relative 1.1e-16 from the exact products), the disk frame is completed in floating point; this perturbs the set by < 1e-15*L, far below 1e-9*L",
+        "membership 'within 1e-9*L of the set' in the Python oracle is tested in exact local coordinates M^-1 (p - c); for the cone the tolerance is scaled by (1 + r/h), for ellipsoid / ellipse by the gauge (tau / smallest radius); the Coq certificate uses the Euclidean distance to an explicit point of the set",
         "IEEE rounding is not modelled by the theorems; its effect is only measured here against 1e-9*L",
-        "mesh hill climbing: the global-maximum theorem carries the hypothesis LocalMaxGlobal on the input mesh (see Props/C03.v); scipy's ConvexHull (inside make_convex_mesh) is used to build inputs",
+        "mesh hill climbing: the global-maximum theorem carries the hypothesis LocalMaxGlobal on the input mesh (see Props/C03.v); coverage.local_max_global reports, for the generated meshes and directions, the exact smallest delta for which it holds; scipy's ConvexHull (inside make_convex_mesh) is used to build inputs",
+        "coverage.impl_line_coverage: source lines of /repo executed by this run's inputs (interpreted re-execution of the numba functions' source under sys.settrace in the workers)",
         "harness/compat.py import shim; numpy/numba/CPython/BLAS",
     ]
     R.check_proofs(PROOF_FILES)
@@ -369,7 +524,8 @@ def run(tier, seed, replay=None):
                 cases.append(json.loads(f.read_text())["case"])
         cases += gen_cases(R.rng, tier)
 
-    results, consts = run_impl_cases(cases, "impl")
+    hits = {}
+    results, consts = run_impl_cases(cases, "impl", hits)
     if consts is not None:
         for k, v in EXPECTED_CONSTS.items():
             if consts.get(k) != v:
@@ -378,12 +534,14 @@ def run(tier, seed, replay=None):
     bad = []
     unbuilt = 0
     judged_ok = {}
+    fails_by_case = {}
     for ci, (c, r) in enumerate(zip(cases, results)):
         if "build_exc" in r:
             unbuilt += 1
             continue
         n_eval += len(c["dirs"]) * (2 if c["shape"]["kind"] == "mesh" else 1)
         f = judge_case(c, r)
+        fails_by_case[ci] = f
         if f:
             bad.append((c, f))
         else:
@@ -391,6 +549,41 @@ def run(tier, seed, replay=None):
     R.cov["evaluations"] = n_eval
     R.cov["cases"] = len(cases)
     R.cov["cases_not_constructible"] = unbuilt
+    npy = sum(len(r.get("pyfunc_diff") or []) for r in results)
+    R.cov["interpreted_vs_compiled_differences"] = npy
+    pyexc = [r["pyfunc_exc"] for r in results if r.get("pyfunc_exc")]
+    if pyexc:
+        R.notes.append(dict(interpreted_replay_errors=pyexc[:3], count=len(pyexc)))
+
+    # Coq-proven certificates on the implementation's answers
+    jobs = []
+    for ci, (c, r) in enumerate(zip(cases, results)):
+        if "build_exc" in r or "exc" in r:
+            continue
+        try:
+            for lab, e in cert_jobs(c, r):
+                jobs.append((ci, lab, e))
+        except Exception as e:  # witness construction is untrusted and may fail
+            R.notes.append(dict(certificate_construction_failed=f"{type(e).__name__}: {str(e)[:200]}", case_hash=cm.canon_hash(c)))
+    cert = dict(submitted=len(jobs), accepted=0, rejected_but_oracle_accepts=0, rejected_and_oracle_rejects=0)
+    try:
+        verdicts = sc.coq_bools(PID, [e for _, _, e in jobs], tag="cert")
+        rej = {}
+        for (ci, lab, _), ok in zip(jobs, verdicts):
+            if ok:
+                cert["accepted"] += 1
+            elif fails_by_case.get(ci):
+                cert["rejected_and_oracle_rejects"] += 1
+            else:
+                cert["rejected_but_oracle_accepts"] += 1
+                k = cases[ci]["shape"]["kind"]
+                rej[k] = rej.get(k, 0) + 1
+        if rej:
+            cert["inconclusive_by_kind"] = rej
+    except RuntimeError as e:
+        R.notes.append(dict(certificate_evaluation_failed=str(e)[:500]))
+    cert["theorem"] = "Checker/ShapesCert.v support_cert_sound, Checker/Shapes.v in_shape_tol_sound"
+    R.cov["certificates"] = cert
 
     # model on the same cases
     exprs, idx = [], []
@@ -400,11 +593,12 @@ def run(tier, seed, replay=None):
         exprs.append(coq_case_expr(c, r))
         idx.append(i)
     ndiff = 0
+    stats = {}
     try:
         outs = cm.coq_eval_lines(PID, sc.HEADER, exprs, per_file=max(4, len(exprs) // (cm.NCPU * 2) + 1))
         for i, o in zip(idx, outs):
             m = sc.parse_coq_value(o)
-            d = compare_case(cases[i], results[i], m)
+            d = compare_case(cases[i], results[i], m, stats)
             if d:
                 ndiff += 1
                 if len(R.corr_broken) < 5:
@@ -414,6 +608,29 @@ def run(tier, seed, replay=None):
         R.corr_broken.append(f"model evaluation failed: {str(e)[:500]}")
     R.cov["traces_validated_against_impl"] = len(idx) - ndiff
     R.cov["correspondence_disagreements"] = ndiff
+    R.cov["queries_compared_exactly"] = stats.get("exact_queries", 0)
+
+    # hypothesis of the partial mesh theorem, evaluated exactly on this run's meshes
+    lmg = dict(pairs=0, holds_with_delta_0=0, holds_within_tolerance=0, worst_delta_over_L=0.0, unused_vertex_cases=0)
+    for c, r in zip(cases, results):
+        if c["shape"]["kind"] != "mesh" or "connections" not in r:
+            continue
+        L = sc.shape_L(c["shape"], c["margin"] or 0.0)
+        unused = False
+        for d in c["dirs"][:8]:
+            delta, gap = local_max_global_delta(c["shape"], r, d)
+            unused = unused or gap > 0
+            lmg["pairs"] += 1
+            lmg["holds_with_delta_0"] += 1 if delta == 0 else 0
+            lmg["holds_within_tolerance"] += 1 if delta <= Fr(1e-9) * Fr(L) else 0
+            lmg["worst_delta_over_L"] = max(lmg["worst_delta_over_L"], float(delta / Fr(L)))
+        lmg["unused_vertex_cases"] += 1 if unused else 0
+    R.cov["local_max_global"] = lmg
+
+    cov = line_coverage(hits, TRACE_SCOPE)
+    R.cov["impl_line_coverage"] = dict(
+        executable=sum(v["executable"] for v in cov.values()), hit=sum(v["hit"] for v in cov.values()),
+        functions=len(cov), missed={k: v["missed"] for k, v in cov.items() if v["missed"]})
 
     distinct = set()
     hist_kind, hist_dir = {}, {}
@@ -432,7 +649,8 @@ def run(tier, seed, replay=None):
     R.cov["input_histogram"] = dict(cases_by_kind_stream=hist_kind, directions_by_class=hist_dir)
     for c, r in list(zip(cases, results))[:3]:
         if "sup" in r:
-            R.sample(dict(shape=c["shape"], margin=c["margin"], direction=c["dirs"][0], support_point=r["sup"][0],
+            shp = {k: v for k, v in c["shape"].items() if k not in ("vs", "triangles") or len(v) <= 12}
+            R.sample(dict(shape=shp, margin=c["margin"], direction=c["dirs"][0], support_point=r["sup"][0],
                           first_vertex=r["first_vertex"], center=r["center"]))
     for c, f in bad[:5]:
         R.failure("; ".join(f[:3]), c, site=f"{c['shape']['kind']}.support_function")
